@@ -123,10 +123,11 @@ def gen_toy(c):
 
 def gen_real(c):
     mcfg = R.gen_model_cfg(c)
+    R.add_extra_contribs(c, mcfg, p=0.25)
     mcfg['nlayers'] = c.randint(3, 7)
     mcfg['opac']['ngrid'] = c.randint(12, 30)
     wide = c.random() < 0.6 and len(mcfg['molecules']) >= 1
-    fit = S.gen_fit(c, mcfg, nmax=4)
+    fit = S.gen_fit(c, mcfg, nmax=4, rich=True)
     if wide:
         # make the invalid region (sum of mixing ratios > 1) reachable
         have = {f['name'] for f in fit}
@@ -440,6 +441,13 @@ def execute(case, keep_text=False):
             if verdict == 'skip':
                 out.bump('probes', 'oracle_skip')
                 pattern.append('s')
+                if Lref == 'non-finite reference model' and math.isfinite(L) \
+                        and not fired:
+                    # the binned model has a NaN/inf bin: so has chi-squared
+                    viol('loglike-mismatch', kind + ':nonfinite-model',
+                         'theta=%s: the model spectrum is not finite but the '
+                         'callback returned %r' % (th, L), step)
+                    raise Stop()
             elif verdict == 'invalid' or fired:
                 if verdict == 'invalid':
                     out.bump('faults', 'invalid_vector')
@@ -555,7 +563,7 @@ def simplify(case):
         yield c
     m = cfg['model']
     if m.get('kind') != 'toy':
-        if len(m['contribs']) > 1:
+        if len(m['contribs']) > 1 and not S.fit_needs_contribs(cfg['fit']):
             c = copy.deepcopy(case)
             c['config']['model']['contribs'] = ['Absorption']
             yield c
